@@ -1,5 +1,6 @@
 SPECIFICATION Spec
 CONSTANTS
+  KeepHist = FALSE
   Dev = {"d1", "d2"}
   Ref = {"r1", "r2"}
   MaxRecords = 5
